@@ -89,6 +89,26 @@ def features(sc):
         "bunds": bool((sc.get("field") or {}).get("bunds", False)),
         "crop_kw": sorted(((sc.get("crop") or {}).get("kw") or {}).keys()),
     }
+    # is the soil profile deepened to accommodate the crop's maximum rooting depth?
+    try:
+        from aquacrop.entities.crops.crop_params import crop_params
+        zmax = float(((sc.get("crop") or {}).get("kw") or {}).get("Zmax", crop_params.get(f["crop"], {}).get("Zmax", 0) or 0))
+        dz = (soil.get("kw") or {}).get("dz")
+        if f["soil"] == "ac_TunisLocal":
+            tot = 1.55
+        else:
+            tot = sum(dz) if dz else 1.2
+        f["deepened"] = bool(tot < zmax + 0.1 - 1e-9)
+    except Exception:
+        f["deepened"] = None
+    gw = sc.get("gw") or {}
+    f["gw_variable"] = gw.get("method") == "Variable" and len(gw.get("dates", [])) > 1
+    try:
+        import pandas as pd
+        ds = [pd.to_datetime(d) for d in gw.get("dates", [])]
+        f["gw_obs_outside_window"] = bool(ds) and (min(ds) < pd.to_datetime(sc["start"]) or max(ds) > pd.to_datetime(sc["end"]))
+    except Exception:
+        f["gw_obs_outside_window"] = None
     return f
 
 
@@ -103,7 +123,7 @@ def match_known(known, prop, key, feat, detail=None):
     for k in known.get("findings", []):
         if k["property"] != prop:
             continue
-        if k.get("key") not in (None, key):
+        if k.get("keys") is not None and key not in k["keys"]:
             continue
         ok = True
         for fk, fv in (k.get("when") or {}).items():
